@@ -35,6 +35,7 @@
 #define SAMPLES_PER_DATA_MIN            (SAMPLE_DECIMATE_FACTOR_MIN)
 #define ENTRIES_PER_SUMMARY_MIN         (SAMPLE_DECIMATE_FACTOR_MIN)
 #define SUMMARY_DECIMATE_FACTOR_MIN     (SAMPLE_DECIMATE_FACTOR_MIN)
+#define SIGNAL_DEF_PARAM_MAX            (1U << 24)  // keeps the alignment arithmetic far from uint32_t wrap
 #define F64_BUF_LENGTH_MIN (1 << 16)
 #define SIGNAL_MASK  (0x0fff)
 #define TAU_F (6.283185307179586f)
@@ -161,6 +162,14 @@ int32_t jls_core_signal_def_validate(struct jls_signal_def_s const * def) {
         default:
             JLS_LOGW("Invalid data type: 0x%08x", def->data_type);
             return JLS_ERROR_PARAMETER_INVALID;
+    }
+
+    if ((def->samples_per_data > SIGNAL_DEF_PARAM_MAX)
+            || (def->sample_decimate_factor > SIGNAL_DEF_PARAM_MAX)
+            || (def->entries_per_summary > SIGNAL_DEF_PARAM_MAX)
+            || (def->summary_decimate_factor > SIGNAL_DEF_PARAM_MAX)) {
+        JLS_LOGW("signal %d definition parameter too big", (int) def->signal_id);
+        return JLS_ERROR_PARAMETER_INVALID;
     }
 
     // Check fixed-point specification
